@@ -1924,7 +1924,7 @@ fn gen_case(rng: &mut Rng, tier: Tier, index: usize) -> Vec<String> {
                 break;
             }
             if rng.chance(1, 2) {
-                g.ops.push("graceful".into());
+                g.ops.push(if rng.chance(1, 2) { "graceful".into() } else { "graceful fast".into() });
             } else {
                 g.ops.push("trip".into());
                 g.writes(rng, 0, 2, true);
